@@ -275,6 +275,55 @@ func explore(s *Scenario, c Component) {
 		vsched.Picker = nil
 		vsched.OnSpin = nil
 		fmt.Fprintf(out, "DONE %s runs=%d exhaustive=false\n", s.ID, n)
+	case "freeze":
+		// one thread is suspended for good after k of its own accesses (every k, every thread); the others,
+		// randomly interleaved, must still finish all their operations: a stalled goroutine blocks nobody.
+		reps, seed := atoi(s.Mode[1]), int64(atoi(s.Mode[2]))
+		vsched.MaxPreempt = -1
+		rng := rand.New(rand.NewSource(seed))
+		// calibration run: how many accesses each thread makes when nobody is frozen
+		vsched.Picker = nil
+		runOnce(s, c, n, nil, -1)
+		n++
+		per := make([]int, len(s.Threads))
+		for _, id := range vsched.Acc {
+			if id < len(per) {
+				per[id]++
+			}
+		}
+		for f := range s.Threads {
+			for k := 0; k <= per[f]+2; k++ {
+				for r := 0; r < reps; r++ {
+					stay := 0.3 + 0.6*rng.Float64()
+					f, k := f, k
+					vsched.Picker = func(canStay bool, ids []int) int {
+						done := 0
+						for _, id := range vsched.Acc {
+							if id == f {
+								done++
+							}
+						}
+						var allowed []int
+						for i, id := range ids {
+							if id != f || done < k {
+								allowed = append(allowed, i)
+							}
+						}
+						if len(allowed) == 0 {
+							vsched.Abort("solo-done") // only the frozen thread is left: everybody else has finished
+						}
+						if canStay && allowed[0] == 0 && rng.Float64() < stay {
+							return 0
+						}
+						return allowed[rng.Intn(len(allowed))]
+					}
+					runOnce(s, c, n, nil, -1)
+					n++
+				}
+			}
+		}
+		vsched.Picker = nil
+		fmt.Fprintf(out, "DONE %s runs=%d exhaustive=false\n", s.ID, n)
 	case "solo":
 		// random prefix, then one thread runs alone until its current
 		// operation returns; every other thread stays frozen forever.
